@@ -2,9 +2,10 @@ SPECIFICATION Spec
 CONSTANTS
   Seeds <- MCSeeds
   ScenariosOf <- MCScenariosOf
+  QuietWins = TRUE
   Cuts = 8
   Fams = {"faults", "args", "pipe"}
-  MaxFiles = 3
+  MaxFiles = 4
   FaultKinds <- AllKinds
   NoMsgs <- Both
   ThreadSet = {1, 4}
